@@ -34,7 +34,7 @@ def run(res, tier, seed, replay):
         lts = [[f"E:s{i}:{k}" for i in range(n)] if rr.random() < 0.6 else [f"E:s0:{k}"]]
         for i in range(n):
             ops = [f"T:{t}:@s{i}"] + [f"C:{t}"] * rr.choice([RLN[k], RLN[k], 0, RLN[k] + 1])
-            if len(lts[0]) == 1 and i + 1 < n: ops.insert(rr.randint(1, len(ops)), f"E:s{i + 1}:{k}")     # the next pair is built during this lifetime
+            if len(lts[0]) == 1 and i + 1 < n: ops.insert(rr.randint(1, min(len(ops), RLN[k] + 1)), f"E:s{i + 1}:{k}")     # the next pair is built during this lifetime (before a call beyond N ends it)
             lts.append(ops)
         lts[1] = lts[0] + lts[1]; lts = lts[1:]
         return f"{hid} r0,r1,fk0,fk1,fk2,fk3 " + "|".join(",".join(o) for o in lts), lts
